@@ -3,14 +3,18 @@
  "property": ["C04", "C05"],
  "entry": "h_get",
  "enforce": ["events_network_get"],
- "replace": ["clearbit"],
+ "replace": [],
  "annotate": ["events/events_network.c"],
- "defines": ["VERIF_HALLOC", "NET_FIXCAP"],
- "allow_undefined": ["libcperciva_warn", "libcperciva_warnx"],
- "models": ["models/ev_poll.c", "models/ev_atexit.c", "models/ev_selectstats.c"],
- "timeout": 600,
- "assumptions": ["object-size parameters: <= NS_Q descriptors in S, <= NF_Q initialised pollfd entries (for-all invariants expanded over these constants); the scan loop itself is closed by its loop contract",
-                 "clearbit replaced by its contract (enforced in C04/net_clearbit)",
+ "defines": ["VERIF_HALLOC", "NET_FIXCAP", "NS_Q=3", "NF_Q=3", "NF_A=3"],
+ "thorough_defines": ["NS_Q=4", "NF_Q=4", "NF_A=4"],
+ "models": ["models/ev_poll.c", "models/ev_atexit.c", "models/ev_selectstats.c", "models/ev_warnp.c"],
+ "loop_contracts": false,
+ "unwind": 4, "thorough_unwind": 5,
+ "bounded": true,
+ "bound": "scan loop unwound NF_Q+1 times: complete for nfds <= NF_Q (3 quick / 4 thorough), the pollfd size parameter that bounds INV_net as well; unwinding assertion checked",
+ "timeout": 300,
+ "assumptions": ["object-size parameters: <= NS_Q descriptors in S, <= NF_Q initialised pollfd entries (for-all invariants expanded over these constants); the scan loop is unwound to the same parameter (tool limit of DFCC loop contracts with object targets, see the spec file)",
+                 "clearbit inlined (real code)",
                  "capacities of S and fds fixed (events_network_get never reallocates)",
                  "meta-level induction over histories (L-ind)"]
 }
@@ -34,7 +38,7 @@ h_get(void)
 	} else {
 		NET_MK_STATE();
 		EV_SPEC_BEGIN
-		__CPROVER_assume(NET_ALL_S && NET_ALL_F && NET_INV_G);
+		__CPROVER_assume(NET_INV_PURE);
 		EV_SPEC_END
 	}
 	size_t nfds0 = nfds, scan0 = fdscanpos;
